@@ -137,6 +137,8 @@ pub assume_specification<T, U, D: FnOnce() -> U, F: FnOnce(T) -> U>[core::option
     requires o is Some ==> f.requires((o->Some_0,)), o is None ==> default.requires(()),
     ensures o is None ==> default.ensures((), out), o is Some ==> f.ensures((o->Some_0,), out);
 pub assume_specification<T>[core::mem::drop::<T>](x: T);
+pub assume_specification<'a, T: Copy>[core::option::Option::<&'a T>::copied](o: Option<&'a T>) -> (out: Option<T>)
+    ensures out == (match o { Some(v) => Some(*v), None => None::<T> });
 pub assume_specification<T, F: FnOnce(T) -> bool>[core::option::Option::<T>::is_some_and](o: Option<T>, f: F) -> (out: bool)
     requires o is Some ==> f.requires((o->Some_0,)),
     ensures o is None ==> !out, o is Some ==> f.ensures((o->Some_0,), out);
